@@ -234,6 +234,7 @@ func VH_C19_hidden_server_is_silent_unless_valid_request() {
 //verif:stub (*hop.computer/hop/certs.Certificate).ReadFrom = c01CertReadFrom
 //verif:stub (hop.computer/hop/certs.Store).VerifyLeaf = c01StoreVerify
 //verif:stub (*hop.computer/hop/authkeys.SyncAuthKeySet).VerifyLeaf = c01AuthKeysVerify
+//verif:stub (*hop.computer/hop/certs.Store).AddCertificate = c04AddCert
 //verif:bounds every combination of: policy absent / skip / store / authorized keys / both, additional callback absent/present, leaf and intermediate parse ok / error / trailing bytes, intermediate absent, each verifier accepting or refusing, callback accepting or refusing
 //verif:cover accepted;refused
 func VH_C01_policy_verdict_is_exactly_the_configured_policy() {
@@ -247,6 +248,10 @@ func VH_C01_policy_verdict_is_exactly_the_configured_policy() {
 	wantName := certs.RawStringName("srv")
 	if hasPolicy {
 		hs.certVerify = &VerifyConfig{InsecureSkipVerify: skip, AuthKeysAllowed: akAllowed, Name: wantName, CurrentTime: time.Unix(1700000000, 0)}
+		if verifBool("policy-has-no-fixed-clock") {
+			hs.certVerify.CurrentTime = time.Time{} // the normal case for a long-lived server: judge at handshake time
+		}
+		c01p.cfgTime = hs.certVerify.CurrentTime
 		hs.certVerify.Store = certs.Store{}
 		hs.certVerify.AuthKeys = authkeys.NewSyncAuthKeySet()
 		if hasCB {
@@ -264,7 +269,15 @@ func VH_C01_policy_verdict_is_exactly_the_configured_policy() {
 	if hasInt {
 		rawInt = make([]byte, 10)
 	}
+	c01p.addCalls = 0
 	_, _, err := hs.certificateParserAndVerifier(rawLeaf, rawInt)
+	if hasPolicy {
+		// the policy object is SHARED by every handshake of a server: judging
+		// one certificate must not change it (no clock reading frozen into it,
+		// no presented certificate cached as a trust anchor)
+		verifAssert(hs.certVerify.CurrentTime.Equal(c01p.cfgTime) && hs.certVerify.CurrentTime.IsZero() == c01p.cfgTime.IsZero(), "C04: verifying a certificate leaves the shared policy's clock setting as configured")
+		verifAssert(c01p.addCalls == 0, "C04: verifying a certificate adds nothing to the shared trust store")
+	}
 	parseOK := c01p.parseFail == 0 && (!hasInt || c01p.extra == 0)
 	policyOK := !hasPolicy || skip || (akAllowed && c01p.akOK) || c01p.storeOK
 	cbPass := !hasPolicy || !hasCB || cbOK
@@ -287,7 +300,11 @@ var c01p struct {
 	reads, storeCalls, akCalls   int
 	optsNameOK, optsTimeOK       bool
 	optsInt                      bool
+	cfgTime                      time.Time
+	addCalls                     int
 }
+
+func c04AddCert(st *certs.Store, c *certs.Certificate) { c01p.addCalls++ }
 
 func c01CertReadFrom(c *certs.Certificate, r io.Reader) (int64, error) {
 	c01p.reads++
@@ -306,7 +323,7 @@ func c01CertReadFrom(c *certs.Certificate, r io.Reader) (int64, error) {
 
 func c01Opts(o certs.VerifyOptions) {
 	c01p.optsNameOK = string(o.Name.Label) == "srv" && o.Name.Type == certs.TypeRaw
-	c01p.optsTimeOK = o.CurrentTime.Unix() == 1700000000
+	c01p.optsTimeOK = o.CurrentTime.Equal(c01p.cfgTime) && o.CurrentTime.IsZero() == c01p.cfgTime.IsZero()
 	c01p.optsInt = o.PresentedIntermediate != nil
 }
 
@@ -594,6 +611,7 @@ func VH_C19_cookie_key_is_random_from_the_start_in_every_configuration() {
 //verif:stub (*hop.computer/hop/certs.Certificate).ReadFrom = c01CertReadFrom
 //verif:stub (hop.computer/hop/certs.Store).VerifyLeaf = c01StoreVerify
 //verif:stub (*hop.computer/hop/authkeys.SyncAuthKeySet).VerifyLeaf = c01AuthKeysVerify
+//verif:stub (*hop.computer/hop/certs.Store).AddCertificate = c04AddCert
 //verif:bounds as VH_C01_policy_verdict_is_exactly_the_configured_policy
 //verif:cover accepted;refused
 func VH_C06_approval_callback_is_consulted_under_every_certificate_policy() {
@@ -647,3 +665,20 @@ func VH_C02_server_never_completes_a_short_clientauth_from_stale_buffer_bytes() 
 //verif:cover returned
 //verif:timeout 3000
 func VH_C10_server_readpacket_any_datagram_up_to_64k() { c10ReadPacket(65535) }
+
+// C04: the verification policy object of a server is shared by all of its
+// handshakes; verifying one peer's certificates must leave it exactly as
+// configured (clock setting, trust store).
+//
+//verif:prop C04
+//verif:replay none
+//verif:nostub (*hop.computer/hop/transport.HandshakeState).certificateParserAndVerifier
+//verif:stub (*hop.computer/hop/certs.Certificate).ReadFrom = c01CertReadFrom
+//verif:stub (hop.computer/hop/certs.Store).VerifyLeaf = c01StoreVerify
+//verif:stub (*hop.computer/hop/authkeys.SyncAuthKeySet).VerifyLeaf = c01AuthKeysVerify
+//verif:stub (*hop.computer/hop/certs.Store).AddCertificate = c04AddCert
+//verif:bounds as VH_C01_policy_verdict_is_exactly_the_configured_policy, with the policy's clock fixed or left zero
+//verif:cover accepted;refused
+func VH_C04_verifying_one_peer_leaves_the_shared_policy_as_configured() {
+	VH_C01_policy_verdict_is_exactly_the_configured_policy()
+}
